@@ -1,6 +1,7 @@
 package main
 
 import (
+	"sort"
 	"fmt"
 	"go/types"
 	"math/big"
@@ -386,7 +387,7 @@ func (s *Session) lemmasC08() []*Obligation {
 				continue
 			}
 			// outside the translator (the uint64 conversion idiom): bit-precise fallbacks
-			out = append(out, s.lemmaMonoAbstract(ki, key, in))
+			out = append(out, s.lemmaMonoAbstract(ki, key, in)...)
 			// accuracy for -1 < x < 1
 			d := u.widthOf(ki.D)
 			inside := And(fpLt(mone, xd), fpLt(xd, one))
@@ -563,7 +564,7 @@ func (s *Session) lemmasC09(tier string) ([]*Obligation, []interface{}) {
 // for the order lemma of C08, where the multiplier is beyond the solvers; the
 // facts assumed about M_k (monotone, sign preserving, bounded by c on (-1,1))
 // are properties of correctly rounded multiplication by a positive constant
-// and are listed as an assumption in the evidence.
+// and are discharged as obligations over the real fp.mul (lemma:mul-monotone, lemma:mul-bounds).
 func abstractMul(ctx *Ctx, t *Term, xname string) (*Term, map[string]*Term) {
 	consts := map[string]*Term{} // function name -> constant factor
 	mentions := func(t *Term) bool {
@@ -617,7 +618,7 @@ func abstractMul(ctx *Ctx, t *Term, xname string) (*Term, map[string]*Term) {
 
 // lemmaMonoAbstract: order preservation of a float->fixed kernel modulo
 // monotone rounding of the constant multiplications.
-func (s *Session) lemmaMonoAbstract(ki *KernelInfo, key string, in *Inst) *Obligation {
+func (s *Session) lemmaMonoAbstract(ki *KernelInfo, key string, in *Inst) []*Obligation {
 	u := ki.U
 	ctx := NewCtx()
 	x := ctx.Const("x", fpSort(ki.S))
@@ -643,7 +644,30 @@ func (s *Session) lemmaMonoAbstract(ki *KernelInfo, key string, in *Inst) *Oblig
 	}
 	o := lemmaObl("mono", key, in.Name, "C08", ctx, assume, leCode(ki.D, app(x), app(y)), "ALL")
 	_ = u
-	return o
+	out := []*Obligation{o}
+	// the facts assumed about M_k above are themselves obligations over the real fp.mul by the
+	// kernel's constant, for all non-NaN binary64 arguments (assume-guarantee: nothing is assumed)
+	var names []string
+	for name := range consts {
+		names = append(names, name)
+	}
+	sort.Strings(names)
+	for i, name := range names {
+		c := consts[name]
+		fctx := NewCtx()
+		a := fctx.Const("a", f64)
+		b := fctx.Const("b", f64)
+		ma, mb := fpOp("fp.mul", "RNE", a, c), fpOp("fp.mul", "RNE", b, c)
+		nn := []*Term{Not(mk("fp.isNaN", SBool, a)), Not(mk("fp.isNaN", SBool, b))}
+		out = append(out, lemmaObl(fmt.Sprintf("mul-monotone:%d", i+1), key, in.Name, "C08", fctx, append(append([]*Term{}, nn...), fpLe(a, b)), fpLe(ma, mb), "QF_FP"))
+		facts := And(Not(mk("fp.isNaN", SBool, ma)),
+			Imp(mk("fp.gt", SBool, a, zero), mk("fp.geq", SBool, ma, zero)),
+			Imp(fpLe(a, zero), fpLe(ma, zero)),
+			Imp(And(fpLt(mone, a), fpLt(a, one)), And(fpLt(mk("fp.neg", f64, c), ma), fpLt(ma, c))),
+			mk("fp.gt", SBool, c, zero), Not(mk("fp.isInfinite", SBool, c)))
+		out = append(out, lemmaObl(fmt.Sprintf("mul-bounds:%d", i+1), key, in.Name, "C08", fctx, nn[:1], facts, "QF_FP"))
+	}
+	return out
 }
 
 // ---- standard-model lemmas -------------------------------------------------------------
